@@ -663,9 +663,17 @@ func (f *verifC39Fixture) verifC39DrawOp(rt *rapid.T, st *verifC39State, view *v
 	case "sys.raiseMaxNodes+stakeNodesFromQueue":
 		op.amount = int64(rapid.IntRange(1, 2).Draw(rt, "delta"))
 	case "sys.updateConfigMaxNodes":
+		// MinNumNodes <= MaxNumNodes is kept (constructor invariant of the contract; the update endpoints compare
+		// with the construction-time values only and rely on their caller for it)
 		op.amount = int64(rapid.IntRange(0, 7).Draw(rt, "newMax"))
+		if op.amount > 0 && op.amount < st.cfg.MinNumNodes {
+			op.amount = st.cfg.MinNumNodes
+		}
 	case "sys.updateConfigMinNodes":
 		op.amount = int64(rapid.IntRange(0, 6).Draw(rt, "newMin"))
+		if op.amount > st.cfg.MaxNumNodes {
+			op.amount = st.cfg.MaxNumNodes
+		}
 	case "sys.stakeNodesFromQueue":
 		// the production caller never asks for more nodes than it made room for
 		room := st.cfg.MaxNumNodes - st.cfg.StakedNodes
